@@ -26,12 +26,18 @@ def setFirst {β : Type} : Kids β → String → β → Kids β
   | [], _, _ => []
   | (t, v) :: r, k, x => if t = k then (t, x) :: r else (t, v) :: setFirst r k x
 
-/-- `_correctValInNode(outernode, tagname, value)` -/
-def correctVal {β : Type} (kids : Kids β) (k : String) (value : Option β) : Kids β :=
+/-- position of a new child: in front of the first existing child whose tag is in `later`, else at the end -/
+def insertBefore {β : Type} (later : List String) : Kids β → String × β → Kids β
+  | [], e => [e]
+  | (t, v) :: r, e => if later.contains t then e :: (t, v) :: r else (t, v) :: insertBefore later r e
+
+/-- `_correctValInNode(outernode, tagname, value, order)`; `later` = the tags that follow `tagname` in `order`
+    (empty when no order is given: the new child is appended) -/
+def correctVal {β : Type} (kids : Kids β) (k : String) (value : Option β) (later : List String := []) : Kids β :=
   match find kids k, value with
   | some _, none => removeFirst kids k
   | some _, some x => setFirst kids k x
-  | none, some x => kids ++ [(k, x)]
+  | none, some x => insertBefore later kids (k, x)
   | none, none => kids
 
 /-! ### VERTEX redirection in Geometry.save -/
